@@ -38,7 +38,13 @@ def main():
     if os.path.exists("/repo/go.sum"):
         shutil.copy("/repo/go.sum", wt)
     rc, out = run(["git", "-C", wt, "apply", diff])
-    assert rc == 0, out
+    if rc != 0:
+        # the change was written against an earlier HEAD (before later fix: commits): merge it
+        rc, out = run(["git", "-C", wt, "apply", "--3way", diff])
+    if rc != 0:
+        run(["git", "-C", "/repo", "worktree", "remove", "--force", wt])
+        print("DOES-NOT-APPLY", name)
+        sys.exit(3)
     scratch = tempfile.mkdtemp(prefix="benign-out-")
     env = dict(ENV, VERIF_OUT=scratch)
     results = {}
